@@ -56,9 +56,26 @@ impl TypeScheme {
                 (QualifiedType::new(t.clone(), Bounds::none()), vec![])
             }
             TypeScheme::Quantified(n_gen, _) => {
-                // TODO: is this a good idea? we don't take care of name clashes here
+                // The declared type parameters of a function are its first quantified
+                // variables, in the declared order (see `generalize_with_leading`). They keep
+                // their names; further (inferred) variables get names that do not clash.
                 let type_parameters = match type_parameters {
-                    Some(tp) if tp.len() == *n_gen => tp.map(TypeVariable::new).collect(),
+                    Some(tp) if tp.len() <= *n_gen => {
+                        let mut names: Vec<TypeVariable> = tp.map(TypeVariable::new).collect();
+                        let mut candidate = 0usize;
+                        while names.len() < *n_gen {
+                            let name = if *n_gen <= 26 && candidate < 26 {
+                                TypeVariable::new(format!("{}", (b'A' + candidate as u8) as char))
+                            } else {
+                                TypeVariable::new(format!("T{candidate}"))
+                            };
+                            candidate += 1;
+                            if !names.contains(&name) {
+                                names.push(name);
+                            }
+                        }
+                        names
+                    }
                     _ => {
                         if *n_gen <= 26 {
                             (0..*n_gen)
